@@ -418,6 +418,20 @@ func init() {
 			}
 			// c13_race4.go: rejected loads and failing operations next to healthy instances (after all other kinds)
 			c13EmitLoads(r, tier, next, emit)
+			// c13_race5.go: default-rich scopes (container defaults on `any`, lists, maps), inputs that leave properties out;
+			// one per eight of the trials above, from a stream of their own and AFTER everything else: the trials above and
+			// the composition of their processes stay as they were
+			rd := &Rng{s: r.s ^ 0x5eedd3fa17}
+			for i := 0; i < n/8; i++ {
+				if i%4 == 3 { // struct-mapped: the xstruct trial with container defaults on its `any` / list / map members
+					xgenRichDefaults = true
+					t := c13GenXStruct(rd, next(), pick(rd, ngs))
+					xgenRichDefaults = false
+					emit(t)
+					continue
+				}
+				emit(c13GenDefaults(rd, next(), pick(rd, ngs)))
+			}
 		},
 		Run: runRaceTrial,
 	}
